@@ -458,17 +458,31 @@ async fn wire_history(rng: &mut Rng, srv: &wire::Server) -> usize {
     };
     let max = 1 + rng.below(3);
     let len = 5 + rng.below(18);
-    let (method, mtok) = match rng.below(4) {
+    let (method, mtok) = match rng.below(5) {
         0 => (RecyclingMethod::Fast, "fast".to_string()),
         1 => (RecyclingMethod::Verified, "verified".to_string()),
         2 => (RecyclingMethod::Clean, "clean".to_string()),
+        // a custom query that happens to be empty is still a check query
+        3 => (RecyclingMethod::Custom("".into()), "custom sql=e".to_string()),
         _ => (RecyclingMethod::Custom("SELECT 42".into()), format!("custom sql={}", hex(b"SELECT 42"))),
     };
     let has_query = !matches!(method, RecyclingMethod::Fast);
-    let mut pg = tokio_postgres::Config::new();
-    pg.host("127.0.0.1").port(srv.port).user("u").dbname("d");
-    let mgr = deadpool_postgres::Manager::from_config(pg, NoTls, ManagerConfig { recycling_method: method });
-    let pool = deadpool_postgres::Pool::builder(mgr).max_size(max).runtime(Runtime::Tokio1).build().unwrap();
+    // two routes to the same pool: a hand-made manager, or `Config::create_pool`
+    let pool = if rng.chance(50) {
+        let mut pg = tokio_postgres::Config::new();
+        pg.host("127.0.0.1").port(srv.port).user("u").dbname("d");
+        let mgr = deadpool_postgres::Manager::from_config(pg, NoTls, ManagerConfig { recycling_method: method });
+        deadpool_postgres::Pool::builder(mgr).max_size(max).runtime(Runtime::Tokio1).build().unwrap()
+    } else {
+        let mut c = Config::new();
+        c.host = Some("127.0.0.1".into());
+        c.port = Some(srv.port);
+        c.user = Some("u".into());
+        c.dbname = Some("d".into());
+        c.manager = Some(ManagerConfig { recycling_method: method });
+        c.pool = Some(PoolConfig::new(max));
+        c.create_pool(Some(Runtime::Tokio1), NoTls).unwrap()
+    };
     let tmo = Timeouts { wait: Some(Duration::ZERO), create: None, recycle: None };
     let mut hist: Vec<String> = Vec::new();
     let emit = |inp: String, out: String, hist: &mut Vec<String>| {
